@@ -1,4 +1,5 @@
 """C17  multiget returns, for each requested href, the current resource or 404."""
+import os
 import random
 import re
 import traceback
@@ -462,9 +463,70 @@ def run_concurrent(args):
     return res
 
 
+def run_two_workers(args):
+    """two server processes on one data directory (a pre-forking deployment): worker B acknowledges an overwrite, then
+    worker A is asked - multiget and GET must report the resource as it is now.  The overwrites keep the size of the
+    body and come in quick succession (several per second), with a read by A in between."""
+    from vf import fe as FE
+    res = common.Result()
+    rng = random.Random(args["seed"])
+    base = common.mkscratch("c17w")
+    w = W.World(base, fe_kind="aio", prefix="/", seed=args["seed"])
+    w.res = res
+    fe2 = None
+    try:
+        w.start()
+        w.stop()
+        w.provision_bare("/user/calendars/barecal/", "calendar", meta="gitconfig")
+        w.start()
+        w.mkcol("/user/calendars/cal0/", "calendar")
+        os.makedirs(os.path.join(base, "w2"), exist_ok=True)
+        fe2 = FE.AioFE(w.root, os.path.join(base, "w2"), principal=w.principal, autocreate=None, prefix=w.prefix)
+        cols = ["/user/calendars/cal0/", "/user/calendars/barecal/"]
+        for rnd in range(args["rounds"]):
+            colpath = cols[rnd % 2]
+            backend = "tree" if "cal0" in colpath else "bare"
+            name = "w%d.ics" % (rnd % 3)
+            target = w.url(colpath, name)
+            writer, reader = (fe2, w.fe) if rnd % 4 < 2 else (w.fe, fe2)
+            for k in range(4):
+                tok = "tw%05dx%dz" % (rnd, k)          # same length every time
+                body = ("BEGIN:VCALENDAR\r\nVERSION:2.0\r\nPRODID:-//vf//c17//EN\r\nBEGIN:VEVENT\r\nUID:c17-two-%s\r\nDTSTAMP:20240101T000000Z\r\nDTSTART:20240102T100000Z\r\n"
+                        "SUMMARY:%s\r\nEND:VEVENT\r\nEND:VCALENDAR\r\n" % (name, tok)).encode()
+                rp = writer.request("PUT", target, [("Content-Type", "text/calendar")], body)
+                if rp.status not in (201, 204):
+                    res.count("two_workers_put_refused:%s" % rp.status)
+                    continue
+                et_put = rp.header("ETag")
+                rm = reader.request("REPORT", w.url(colpath), [("Depth", "1"), X.XML_CT], X.multiget("calendar", [target]))
+                rg = reader.request("GET", target, [], None)
+                res.evaluations += 1
+                res.count("two_worker_reads_after_an_acknowledged_overwrite")
+                res.seen("two-workers", backend, k, rm.status, rg.status)
+                if rg.status != 200 or tok.encode() not in (rg.body or b""):
+                    res.violation(f"two-workers/{backend}/get-by-the-other-worker-is-stale", f"worker B acknowledged PUT {target} ({tok}); GET by worker A -> {rg.status} without that content", {"config": dict(args)})
+                if rm.status != 207 or tok.encode() not in (rm.body or b""):
+                    res.violation(f"two-workers/{backend}/multiget-by-the-other-worker-is-stale", f"worker B acknowledged PUT {target} ({tok}); multiget by worker A -> {rm.status} without that content", {"config": dict(args)})
+                elif et_put and et_put.strip('"').encode() not in rm.body:
+                    res.violation(f"two-workers/{backend}/multiget-etag-is-not-the-acknowledged-one", f"worker B acknowledged PUT {target} with ETag {et_put}; the multiget by worker A reports another", {"config": dict(args)})
+    except Exception:
+        res.inconclusive.append("harness exception: " + traceback.format_exc()[-1500:])
+    finally:
+        try:
+            if fe2 is not None:
+                fe2.stop()
+        except Exception:
+            pass
+        w.stop()
+        common.rmtree(base)
+    return res
+
+
 def run_shard(args):
     if args.get("mode") == "concurrent":
         return run_concurrent(args)
+    if args.get("mode") == "two-workers":
+        return run_two_workers(args)
     res = common.Result()
     rng = random.Random(args["seed"])
     base = common.mkscratch("c17")
@@ -532,6 +594,8 @@ def check(tier, seed, t0):
     for i in range(4 if not th else 12):
         shards.append({"mode": "concurrent", "backend": ["tree", "bare"][i % 2], "kind": ["calendar", "addressbook"][(i // 2) % 2], "seed": seed * 1000 + 900 + i,
                        "seconds": 6 if not th else 30, "delay_ms": [4, 8][(i // 2) % 2]})
+    for i in range(2 if not th else 6):
+        shards.append({"mode": "two-workers", "seed": seed * 1000 + 950 + i, "rounds": 60 if not th else 300})
     results, failures = common.run_shards("vf.props.c17", shards, timeout_s=300 if not th else 2400)
     merged = common.merge(results)
     c = merged["counters"]
@@ -540,6 +604,7 @@ def check(tier, seed, t0):
               ("singleton replays", c.get("singleton_replays", 0), 6000 * k), ("answers found", c.get("outcome:found", 0), 800 * k), ("answers not found", c.get("outcome:notfound", 0), 500 * k),
               ("(ETag, data) pairs of multigets concurrent with overwrites", c.get("concurrent_pairs_judged:multiget", 0), 300 * (1 if not th else 6)), ("overwrites during concurrent runs", c.get("concurrent_writes", 0), 100),
               ("multigets sent to the collection URL without trailing slash", c.get("multigets_to_url_without_trailing_slash", 0), 300 * k),
+              ("reads by one server process after an overwrite acknowledged by another", c.get("two_worker_reads_after_an_acknowledged_overwrite", 0), 300 * (1 if not th else 8)),
               ("members uploaded with a generic content type (stored verbatim)", c.get("members_uploaded_with_a_generic_content_type", 0), 40 * k)]
     for cl in ("emitted", "encoded", "lower-escapes", "absolute-url", "deleted", "never-existed", "other-collection", "other-kind", "collection-itself", "outside-prefix", "sibling-prefix", "empty", "bad-escape", "dot-segments", "bogus-parent-same-basename", "doubled-slash", "sibling-with-name-prefix"):
         guards.append(("class " + cl, c.get("class:" + cl, 0), 20))
